@@ -146,6 +146,14 @@ func (s *Session) Hijacked() bool {
 	return s.hijacked
 }
 
+// connection returns the underlying connection of the session.
+func (s *Session) connection() net.Conn {
+	s.mu.RLock()
+	defer s.mu.RUnlock()
+
+	return s.conn
+}
+
 // setConn resets the underlying connection and bufio.ReadWriter of the
 // session. Used by the proxy when the connection is upgraded to TLS.
 func (s *Session) setConn(conn net.Conn, brw *bufio.ReadWriter) {
